@@ -1,1 +1,328 @@
-// contract harnesses for trust-runtime/src/io (included by the verification hook)
+// Contract harnesses for crates/trust-runtime/src/io.rs  (C07, C03, C08)
+//
+// IoInterface::read / write: direct-address locality and little-endian layout.
+//   pre  (addr_valid)  !wildcard, flat path (len <= 1), bit <= 7 -- the invariant IoAddress::parse
+//                      establishes for every address the compiler hands to the runtime
+//   post (write)       Ok; bytes [byte, byte+size) hold the little-endian encoding (bit n of byte b
+//                      for X); EVERY other byte of that area and both other areas are unchanged
+//                      (bytes beyond the old length read as 0); a wrong value variant is refused
+//                      with TypeMismatch and leaves all three images unchanged
+//   post (read)        never panics for any byte offset (short image reads as zeros);
+//                      read(a) after write(a, v) is v
+// Bound: image length <= 10 bytes and byte offset <= 11 (covers inside / straddling the end /
+// beyond the end for every size); the value domain is full.
+
+use super::*;
+use crate::error::RuntimeError;
+use crate::memory::IoArea;
+use crate::value::Value;
+use trust_hir::TypeId;
+
+const N: usize = 10;
+const MAXB: u32 = 11;
+
+fn fixed_rs() -> std::hash::RandomState {
+    verif_support::fixed_random_state()
+}
+
+fn any_image() -> Vec<u8> {
+    let arr: [u8; N] = kani::any();
+    let len: usize = kani::any();
+    kani::assume(len <= N);
+    arr[..len].to_vec()
+}
+
+fn mk_io(inputs: Vec<u8>, outputs: Vec<u8>, memory: Vec<u8>) -> IoInterface {
+    IoInterface {
+        inputs,
+        outputs,
+        memory,
+        bindings: Vec::new(),
+        hierarchical: std::collections::HashMap::default(),
+    }
+}
+
+fn addr(area: IoArea, size: IoSize, byte: u32, bit: u8) -> IoAddress {
+    IoAddress { area, size, byte, bit, path: vec![byte], wildcard: false }
+}
+
+fn at(v: &[u8], i: usize) -> u8 {
+    if i < v.len() { v[i] } else { 0 }
+}
+
+/// frame: every byte outside [lo, lo+n) is unchanged (missing bytes read as zero)
+fn unchanged_outside(before: &[u8], after: &[u8], lo: usize, n: usize) -> bool {
+    let mut i = 0;
+    let mut ok = true;
+    while i < N + 12 {
+        if i < lo || i >= lo + n {
+            ok = ok && at(before, i) == at(after, i);
+        }
+        i += 1;
+    }
+    ok
+}
+
+macro_rules! write_harness {
+    ($name:ident, $size:ident, $var:ident, $ty:ty, $n:expr) => {
+        #[kani::proof]
+        #[kani::stub(std::hash::RandomState::new, fixed_rs)]
+        #[kani::unwind(24)]
+        fn $name() {
+            let (i0, q0, m0) = (any_image(), any_image(), any_image());
+            let mut io = mk_io(i0.clone(), q0.clone(), m0.clone());
+            let byte: u32 = kani::any();
+            kani::assume(byte <= MAXB);
+            let v: $ty = kani::any();
+            let a = addr(IoArea::Output, IoSize::$size, byte, 0);
+            let r = io.write(&a, Value::$var(v));
+            let ok_w = matches!(&r, Ok(()));
+            std::mem::forget(r);
+            assert!(ok_w, "a write to a valid direct address succeeds");
+            let le = v.to_le_bytes();
+            let mut k = 0;
+            while k < $n {
+                assert!(at(&io.outputs, byte as usize + k) == le[k], "little-endian layout at the addressed bytes");
+                k += 1;
+            }
+            assert!(unchanged_outside(&q0, &io.outputs, byte as usize, $n), "bytes outside the addressed span are unchanged");
+            assert!(io.inputs == i0 && io.memory == m0, "the other areas are untouched");
+            let rb = io.read(&a);
+            let ok_r = matches!(&rb, Ok(Value::$var(x)) if *x == v);
+            std::mem::forget(rb);
+            assert!(ok_r, "read after write returns the written value");
+            kani::cover!(byte as usize + $n <= q0.len());
+            kani::cover!((byte as usize) < q0.len() && byte as usize + $n > q0.len());
+            kani::cover!(byte as usize >= q0.len());
+        }
+    };
+}
+
+// @unit id=io.write.byte props=C07 tier=quick kind=bounded bound="image<=10 bytes, offset<=11; value full" timeout=900 fn=IoInterface::write,IoInterface::read,ensure_len
+write_harness!(io_write_byte, Byte, Byte, u8, 1);
+// @unit id=io.write.word props=C07 tier=quick kind=bounded bound="image<=10 bytes, offset<=11; value full" timeout=900 fn=IoInterface::write,IoInterface::read,ensure_len
+write_harness!(io_write_word, Word, Word, u16, 2);
+// @unit id=io.write.dword props=C07 tier=quick kind=bounded bound="image<=10 bytes, offset<=11; value full" timeout=900 fn=IoInterface::write,IoInterface::read,ensure_len
+write_harness!(io_write_dword, DWord, DWord, u32, 4);
+// @unit id=io.write.lword props=C07 tier=thorough kind=bounded bound="image<=10 bytes, offset<=11; value full" timeout=1800 fn=IoInterface::write,IoInterface::read,ensure_len
+write_harness!(io_write_lword, LWord, LWord, u64, 8);
+
+// @unit id=io.write.bit props=C07 tier=quick kind=bounded bound="image<=10 bytes, offset<=11; bit 0..7, value full" timeout=900 fn=IoInterface::write,IoInterface::read,ensure_len
+#[kani::proof]
+#[kani::stub(std::hash::RandomState::new, fixed_rs)]
+#[kani::unwind(24)]
+fn io_write_bit() {
+    let (i0, q0, m0) = (any_image(), any_image(), any_image());
+    let mut io = mk_io(i0.clone(), q0.clone(), m0.clone());
+    let byte: u32 = kani::any();
+    let bit: u8 = kani::any();
+    kani::assume(byte <= MAXB && bit <= 7);
+    let v: bool = kani::any();
+    let a = addr(IoArea::Output, IoSize::Bit, byte, bit);
+    let r = io.write(&a, Value::Bool(v));
+    let ok_w = matches!(&r, Ok(()));
+    std::mem::forget(r);
+    assert!(ok_w);
+    let old = at(&q0, byte as usize);
+    let new = at(&io.outputs, byte as usize);
+    let mask = 1u8 << bit;
+    assert!((new & mask != 0) == v, "bit n of byte b holds the written BOOL");
+    assert!((new & !mask) == (old & !mask), "the other seven bits of the byte are unchanged");
+    assert!(unchanged_outside(&q0, &io.outputs, byte as usize, 1));
+    assert!(io.inputs == i0 && io.memory == m0);
+    let rb = io.read(&a);
+    let ok_r = matches!(&rb, Ok(Value::Bool(x)) if *x == v);
+    std::mem::forget(rb);
+    assert!(ok_r);
+    kani::cover!(v && bit == 7 && (byte as usize) < q0.len());
+    kani::cover!(!v && byte as usize >= q0.len());
+}
+
+// a value of the wrong variant is refused and nothing changes; each area is independent
+// @unit id=io.write.mismatch props=C07 tier=quick kind=bounded bound="image<=10 bytes, offset<=11" timeout=900 fn=IoInterface::write
+#[kani::proof]
+#[kani::stub(std::hash::RandomState::new, fixed_rs)]
+#[kani::unwind(24)]
+fn io_write_mismatch() {
+    let (i0, q0, m0) = (any_image(), any_image(), any_image());
+    let mut io = mk_io(i0.clone(), q0.clone(), m0.clone());
+    let byte: u32 = kani::any();
+    kani::assume(byte <= MAXB);
+    let v: u16 = kani::any();
+    let r = io.write(&addr(IoArea::Output, IoSize::Byte, byte, 0), Value::Word(v));
+    let refused = matches!(&r, Err(RuntimeError::TypeMismatch));
+    std::mem::forget(r);
+    assert!(refused, "a WORD value is refused at a byte address");
+    assert!(io.inputs == i0 && io.outputs == q0 && io.memory == m0, "a refused write changes nothing");
+    kani::cover!(byte as usize >= q0.len());
+}
+
+// the area selects the image: a write to %M / %I never touches %Q
+// @unit id=io.write.areas props=C07 tier=quick kind=bounded bound="image<=10 bytes, offset<=11; value full" timeout=900 fn=IoInterface::write,IoInterface::area_mut
+#[kani::proof]
+#[kani::stub(std::hash::RandomState::new, fixed_rs)]
+#[kani::unwind(24)]
+fn io_write_areas() {
+    let (i0, q0, m0) = (any_image(), any_image(), any_image());
+    let mut io = mk_io(i0.clone(), q0.clone(), m0.clone());
+    let byte: u32 = kani::any();
+    kani::assume(byte <= MAXB);
+    let v: u8 = kani::any();
+    let to_memory: bool = kani::any();
+    let area = if to_memory { IoArea::Memory } else { IoArea::Input };
+    let r = io.write(&addr(area, IoSize::Byte, byte, 0), Value::Byte(v));
+    let ok = matches!(&r, Ok(()));
+    std::mem::forget(r);
+    assert!(ok);
+    assert!(io.outputs == q0, "%Q is untouched by a write to %I or %M");
+    if to_memory {
+        assert!(io.inputs == i0 && at(&io.memory, byte as usize) == v && unchanged_outside(&m0, &io.memory, byte as usize, 1));
+    } else {
+        assert!(io.memory == m0 && at(&io.inputs, byte as usize) == v && unchanged_outside(&i0, &io.inputs, byte as usize, 1));
+    }
+    kani::cover!(to_memory);
+    kani::cover!(!to_memory);
+}
+
+// read never panics and decodes little-endian with zero fill, for every offset
+// @unit id=io.read.total props=C07 tier=quick kind=bounded bound="image<=10 bytes; offset full u32 (sizes B/W/D/L/X)" timeout=900 fn=IoInterface::read
+#[kani::proof]
+#[kani::stub(std::hash::RandomState::new, fixed_rs)]
+#[kani::unwind(24)]
+fn io_read_total() {
+    let q0 = any_image();
+    let io = mk_io(Vec::new(), q0.clone(), Vec::new());
+    let byte: u32 = kani::any();
+    kani::assume(byte <= u32::MAX - 8);
+    let b = byte as usize;
+    let r1 = io.read(&addr(IoArea::Output, IoSize::Byte, byte, 0));
+    let r2 = io.read(&addr(IoArea::Output, IoSize::Word, byte, 0));
+    let r4 = io.read(&addr(IoArea::Output, IoSize::DWord, byte, 0));
+    let ok1 = matches!(&r1, Ok(Value::Byte(x)) if *x == at(&q0, b));
+    let ok2 = matches!(&r2, Ok(Value::Word(x)) if *x == u16::from_le_bytes([at(&q0, b), at(&q0, b + 1)]));
+    let ok4 = matches!(&r4, Ok(Value::DWord(x)) if *x == u32::from_le_bytes([at(&q0, b), at(&q0, b + 1), at(&q0, b + 2), at(&q0, b + 3)]));
+    std::mem::forget((r1, r2, r4));
+    assert!(ok1 && ok2 && ok4, "read decodes little-endian; bytes beyond the image read as zero");
+    kani::cover!(b + 4 <= q0.len());
+    kani::cover!(b < q0.len() && b + 4 > q0.len());
+    kani::cover!(b >= q0.len());
+}
+
+// ---------------------------------------------------------------------------------------------
+// C07-C / C03: image <-> variable coercion: tag is the declared type, bit pattern preserved,
+// to_io then from_io is the identity
+// ---------------------------------------------------------------------------------------------
+
+macro_rules! coerce_roundtrip {
+    ($name:ident, $tid:ident, $var:ident, $ty:ty, $size:ident, $iovar:ident, $bits:expr) => {
+        #[kani::proof]
+        fn $name() {
+            let v: $ty = kani::any();
+            let to = coerce_to_io(Value::$var(v), TypeId::$tid, IoSize::$size);
+            let bits_fn = $bits;
+            let ok_to = matches!(&to, Ok(Value::$iovar(b)) if (*b as u64) == bits_fn(v));
+            assert!(ok_to, "coerce_to_io yields the raw bit pattern in the image-sized bit string");
+            let raw = match to { Ok(x) => x, Err(_) => unreachable!() };
+            let back = coerce_from_io(raw, TypeId::$tid);
+            let ok_back = matches!(&back, Ok(Value::$var(w)) if bits_fn(*w) == bits_fn(v));
+            std::mem::forget(back);
+            assert!(ok_back, "coerce_from_io returns the declared type's tag with the same bit pattern (inverse of coerce_to_io)");
+            // a size that does not match the declared type is refused
+            let wrong = coerce_to_io(Value::$var(v), TypeId::$tid, if matches!(IoSize::$size, IoSize::Word) { IoSize::Byte } else { IoSize::Word });
+            let refused = matches!(&wrong, Err(RuntimeError::TypeMismatch));
+            std::mem::forget(wrong);
+            assert!(refused);
+            kani::cover!(true);
+        }
+    };
+}
+
+// @unit id=io.coerce.bool props=C07,C03 tier=quick kind=proof fn=coerce_to_io,coerce_from_io,expected_size_for_type
+coerce_roundtrip!(io_coerce_bool, BOOL, Bool, bool, Bit, Bool, |x: bool| x as u64);
+// @unit id=io.coerce.sint props=C07,C03 tier=quick kind=proof fn=coerce_to_io,coerce_from_io,expected_size_for_type
+coerce_roundtrip!(io_coerce_sint, SINT, SInt, i8, Byte, Byte, |x: i8| x as u8 as u64);
+// @unit id=io.coerce.usint props=C07,C03 tier=thorough kind=proof fn=coerce_to_io,coerce_from_io,expected_size_for_type
+coerce_roundtrip!(io_coerce_usint, USINT, USInt, u8, Byte, Byte, |x: u8| x as u64);
+// @unit id=io.coerce.byte props=C07,C03 tier=thorough kind=proof fn=coerce_to_io,coerce_from_io,expected_size_for_type
+coerce_roundtrip!(io_coerce_byte, BYTE, Byte, u8, Byte, Byte, |x: u8| x as u64);
+// @unit id=io.coerce.char props=C07,C03 tier=thorough kind=proof fn=coerce_to_io,coerce_from_io,expected_size_for_type
+coerce_roundtrip!(io_coerce_char, CHAR, Char, u8, Byte, Byte, |x: u8| x as u64);
+// @unit id=io.coerce.int props=C07,C03 tier=quick kind=proof fn=coerce_to_io,coerce_from_io,expected_size_for_type
+coerce_roundtrip!(io_coerce_int, INT, Int, i16, Word, Word, |x: i16| x as u16 as u64);
+// @unit id=io.coerce.uint props=C07,C03 tier=thorough kind=proof fn=coerce_to_io,coerce_from_io,expected_size_for_type
+coerce_roundtrip!(io_coerce_uint, UINT, UInt, u16, Word, Word, |x: u16| x as u64);
+// @unit id=io.coerce.word props=C07,C03 tier=thorough kind=proof fn=coerce_to_io,coerce_from_io,expected_size_for_type
+coerce_roundtrip!(io_coerce_word, WORD, Word, u16, Word, Word, |x: u16| x as u64);
+// @unit id=io.coerce.wchar props=C07,C03 tier=thorough kind=proof fn=coerce_to_io,coerce_from_io,expected_size_for_type
+coerce_roundtrip!(io_coerce_wchar, WCHAR, WChar, u16, Word, Word, |x: u16| x as u64);
+// @unit id=io.coerce.dint props=C07,C03 tier=quick kind=proof fn=coerce_to_io,coerce_from_io,expected_size_for_type
+coerce_roundtrip!(io_coerce_dint, DINT, DInt, i32, DWord, DWord, |x: i32| x as u32 as u64);
+// @unit id=io.coerce.udint props=C07,C03 tier=thorough kind=proof fn=coerce_to_io,coerce_from_io,expected_size_for_type
+coerce_roundtrip!(io_coerce_udint, UDINT, UDInt, u32, DWord, DWord, |x: u32| x as u64);
+// @unit id=io.coerce.dword props=C07,C03 tier=thorough kind=proof fn=coerce_to_io,coerce_from_io,expected_size_for_type
+coerce_roundtrip!(io_coerce_dword, DWORD, DWord, u32, DWord, DWord, |x: u32| x as u64);
+// @unit id=io.coerce.real props=C07,C03 tier=quick kind=proof fn=coerce_to_io,coerce_from_io,expected_size_for_type
+coerce_roundtrip!(io_coerce_real, REAL, Real, f32, DWord, DWord, |x: f32| x.to_bits() as u64);
+// @unit id=io.coerce.lint props=C07,C03 tier=quick kind=proof fn=coerce_to_io,coerce_from_io,expected_size_for_type
+coerce_roundtrip!(io_coerce_lint, LINT, LInt, i64, LWord, LWord, |x: i64| x as u64);
+// @unit id=io.coerce.ulint props=C07,C03 tier=thorough kind=proof fn=coerce_to_io,coerce_from_io,expected_size_for_type
+coerce_roundtrip!(io_coerce_ulint, ULINT, ULInt, u64, LWord, LWord, |x: u64| x);
+// @unit id=io.coerce.lword props=C07,C03 tier=thorough kind=proof fn=coerce_to_io,coerce_from_io,expected_size_for_type
+coerce_roundtrip!(io_coerce_lword, LWORD, LWord, u64, LWord, LWord, |x: u64| x);
+// @unit id=io.coerce.lreal props=C07,C03 tier=quick kind=proof fn=coerce_to_io,coerce_from_io,expected_size_for_type
+coerce_roundtrip!(io_coerce_lreal, LREAL, LReal, f64, LWord, LWord, |x: f64| x.to_bits());
+
+// widening source into a narrower declared type: value preserved or Overflow, never a wrapped value
+// @unit id=io.coerce.narrowing props=C07,C03 tier=quick kind=proof fn=coerce_to_io
+#[kani::proof]
+fn io_coerce_narrowing() {
+    let v: i32 = kani::any();
+    let r = coerce_to_io(Value::DInt(v), TypeId::INT, IoSize::Word);
+    let ok = if v >= i16::MIN as i32 && v <= i16::MAX as i32 {
+        matches!(&r, Ok(Value::Word(w)) if *w == v as i16 as u16)
+    } else {
+        matches!(&r, Err(RuntimeError::Overflow))
+    };
+    kani::cover!(v > i16::MAX as i32);
+    kani::cover!(v == -1);
+    std::mem::forget(r);
+    assert!(ok, "a DINT value bound to an INT address is range-checked, never truncated");
+}
+
+// ---------------------------------------------------------------------------------------------
+// C07-S / C08: IoSafeState::apply -- afterwards every configured address holds its safe value
+// ---------------------------------------------------------------------------------------------
+
+// @unit id=io.safe_state.apply props=C07,C08 tier=quick kind=bounded bound="2 entries (BYTE, WORD), image<=10 bytes, offsets<=11" timeout=1200 fn=IoSafeState::apply,IoInterface::write
+#[kani::proof]
+#[kani::stub(std::hash::RandomState::new, fixed_rs)]
+#[kani::unwind(24)]
+fn io_safe_state_apply() {
+    let (i0, q0, m0) = (any_image(), any_image(), any_image());
+    let mut io = mk_io(i0.clone(), q0.clone(), m0.clone());
+    let (b1, b2): (u32, u32) = (kani::any(), kani::any());
+    kani::assume(b1 <= MAXB && b2 <= MAXB);
+    let (v1, v2): (u8, u16) = (kani::any(), kani::any());
+    let a1 = addr(IoArea::Output, IoSize::Byte, b1, 0);
+    let a2 = addr(IoArea::Output, IoSize::Word, b2, 0);
+    let safe = IoSafeState { outputs: vec![(a1.clone(), Value::Byte(v1)), (a2.clone(), Value::Word(v2))] };
+    let r = safe.apply(&mut io);
+    let ok = matches!(&r, Ok(()));
+    std::mem::forget(r);
+    assert!(ok, "applying a well-formed safe state succeeds");
+    // the later entry always holds; the earlier one holds unless the later one overlaps it
+    let r2 = io.read(&a2);
+    let ok2 = matches!(&r2, Ok(Value::Word(x)) if *x == v2);
+    std::mem::forget(r2);
+    assert!(ok2, "every safe-state address holds its safe value in the output image");
+    let overlap = b1 == b2 || b1 == b2 + 1;
+    if !overlap {
+        let r1 = io.read(&a1);
+        let ok1 = matches!(&r1, Ok(Value::Byte(x)) if *x == v1);
+        std::mem::forget(r1);
+        assert!(ok1, "every safe-state address holds its safe value in the output image");
+    }
+    assert!(io.inputs == i0 && io.memory == m0, "the safe state only touches the output image");
+    kani::cover!(overlap);
+    kani::cover!(!overlap && b1 as usize >= q0.len());
+}
